@@ -26,10 +26,10 @@ import (
 )
 
 const (
-	slotA           = uint16(3)
-	slotB           = uint16(4)
-	metaBatch       = 1024 // pkg/db/meta: slotSnapshotImportBatchEntries
-	entriesPerUser  = 1
+	slotA          = uint16(3)
+	slotB          = uint16(4)
+	metaBatch      = 1024 // pkg/db/meta: slotSnapshotImportBatchEntries
+	entriesPerUser = 1
 )
 
 type metaStore struct {
@@ -192,11 +192,11 @@ func (m *metaWorld) usersIn(data []byte) int64 {
 type metaEntry struct{ start, end int }
 
 type metaLayout struct {
-	slots     []uint16
-	count     uint64
-	countOff  int
-	entries   []metaEntry
-	bodyEnd   int
+	slots    []uint16
+	count    uint64
+	countOff int
+	entries  []metaEntry
+	bodyEnd  int
 }
 
 func parseMetaStream(data []byte) (metaLayout, error) {
